@@ -15,6 +15,7 @@ makes the case fail on the monitor side instead of being skipped.
 """
 import argparse
 import hashlib
+import zlib
 import json
 import os
 import re
@@ -23,10 +24,31 @@ import sys
 LINE = re.compile(r"^(\d+)\s+(.*)$")
 CALL = re.compile(r"^([a-z0-9_]+)\((.*)\)\s+= (-?\d+|\?)(?:\s+(E[A-Z]+).*)?$", re.S)
 SMALL = 512
+VIS = SMALL + 64          # what strace -s shows of one call
+
+
+_ESC = re.compile(r"\\(x[0-9a-fA-F]{2}|[0-7]{1,3}|.)", re.S)
+_ESC_MAP = {"n": 10, "t": 9, "r": 13, "\\": 92, '"': 34, "f": 12, "v": 11}
+
+
+def _esc(m):
+    g = m.group(1)
+    if g[0] == "x" and len(g) == 3:
+        return chr(int(g[1:], 16))
+    if g[0] in "01234567":
+        return chr(int(g, 8) & 255)
+    return chr(_ESC_MAP.get(g, ord(g) & 255))
 
 
 def unescape(s):
     """C-style escapes of strace (octal, \\xHH and the usual letters)."""
+    if "\\" not in s:
+        return s.encode("latin-1", "replace")
+    return _ESC.sub(_esc, s).encode("latin-1", "replace")
+
+
+def unescape_slow(s):
+    """Reference implementation (self-test compares the two)."""
     out = bytearray()
     i = 0
     while i < len(s):
@@ -137,6 +159,7 @@ class Seg:
         self.syscalls = 0
         self.first_line = None
         self.tids = set()      # threads that contributed an operation
+        self.save_marks = []   # index in ops at which the k-th save of the case starts
 
 
 def forked_children(trace):
@@ -231,6 +254,8 @@ def parse(trace, root):
                     cur.first_line = ln
                 elif m:
                     cur = None
+                elif cur is not None and re.search(r"save-(\d+)$", p):
+                    cur.save_marks.append(len(cur.ops))
                 continue
             if ok and inroot(p) and "AT_REMOVEDIR" not in fl:
                 emit("U", p)
@@ -275,14 +300,15 @@ def parse(trace, root):
             if not (ok and ent and ent[1]):
                 continue
             data, complete = cstr(a[1])
+            vis = data[:ret] if data is not None else b""
             if data is not None and complete and len(data) >= ret:
                 data = data[:ret]
             else:
                 data = None             # not fully visible: chunk mode
             if name == "write":
-                emit("W", fd, ret, data)
+                emit("W", fd, ret, data, vis)
             else:
-                emit("PW", fd, int(a[3]), ret, data)
+                emit("PW", fd, int(a[3]), ret, data, vis)
         elif name in ("fsync", "fdatasync"):
             ent = fdt.get(int(a[0]))
             if ok and ent and ent[1]:
@@ -337,7 +363,20 @@ def gb(b):
 
 
 def gdata(bs):
+    if len(bs) > 1000:
+        # a literal of tens of thousands of elements overflows coqc's stack
+        return "(concat [%s])" % "; ".join(gdata(bs[i:i + 1000]) for i in range(0, len(bs), 1000))
     return "[" + ";".join(str(x) for x in bs) + "]" if len(bs) else "[]"
+
+
+def gdu(xs):
+    """Chunk-mode elements as primitive integer literals (see DU in Run/C14.v)."""
+    if not xs:
+        return "[]"
+    if len(xs) > 1000:
+        return "(DU (concat [%s])%%uint63)" % "; ".join(
+            "[" + ";".join(str(x) for x in xs[i:i + 1000]) + "]" for i in range(0, len(xs), 1000))
+    return "(DU [%s]%%uint63)" % ";".join(str(x) for x in xs)
 
 
 def glist(items):
@@ -425,7 +464,135 @@ def max_open_writers(ops):
     return best
 
 
-def build_case(seg, rec, root):
+def elem(n, vis):
+    """One write call in chunk mode: CRC-32 of the bytes strace shows (at most
+    the first SMALL+64 of the call) and the length, packed into one number."""
+    if not n:
+        return []
+    return [(zlib.crc32(vis[:VIS]) << 30) | n]
+
+
+def ref_content(v, want_dir):
+    """Reference bytes of a version: intended content when the harness knows
+    it, else what it read back.  None when not available."""
+    hx = v.get("want_hex") if v.get("has_want") else v.get("hex")
+    ln = v.get("want_len", 0) if v.get("has_want") else v.get("len", 0)
+    if ln <= SMALL and hx is not None:
+        return bytes.fromhex(hx)
+    name = v.get("want_sha")
+    if name and want_dir:
+        try:
+            with open(os.path.join(want_dir, name + ".bin"), "rb") as f:
+                return f.read()
+        except OSError:
+            return None
+    return None
+
+
+def published_chunks(ops, dst):
+    """The write calls (length, visible bytes) that made up each file renamed
+    onto dst, in the order of publication.  Sequential writes only."""
+    fd_path, content, pubs = {}, {}, []
+    for op in ops:
+        t = op[0]
+        if t == "O":
+            fd_path[op[1]] = op[2]
+            if op[3] and op[2] not in content or op[5]:
+                content[op[2]] = []
+            content.setdefault(op[2], [])
+        elif t == "W":
+            p = fd_path.get(op[1])
+            if p is not None:
+                content.setdefault(p, []).append((op[2], op[4]))
+        elif t == "C":
+            fd_path.pop(op[1], None)
+        elif t == "R":
+            c = content.pop(op[1], None)
+            if c is not None:
+                content[op[2]] = c
+                if op[2] == dst:
+                    pubs.append(list(c))
+            for fd, p in list(fd_path.items()):
+                if p == op[1]:
+                    fd_path[fd] = op[2]
+        elif t == "U":
+            content.pop(op[1], None)
+    return pubs
+
+
+def slice_elems(ref, chunks):
+    """The reference content cut at the boundaries of the recorded write
+    calls, as chunk-mode elements.  A content of another length gives another
+    list (the rest, if any, becomes one more element)."""
+    out, off = [], 0
+    for n, _ in chunks:
+        out += elem(len(ref[off:off + n]), ref[off:off + n])
+        off += n
+    if off < len(ref):
+        out += elem(len(ref) - off, ref[off:])
+    return out
+
+
+FAULT_CODE = {"": 0, "nofile": 1, "fsync": 2, "rename": 3}
+
+
+def saves_term(seg, rec, P, dst):
+    """What the save model of Model/SaveLoop.v is asked to reproduce: per save
+    of an ordered case its kind, descriptor and temporary name (from the
+    trace), ending and injected fault (from the harness), and the reported
+    result."""
+    ops, versions = seg.ops, rec["versions"]
+    nsaves = len(versions) - 1
+    left = []       # temporary files the model says are left behind
+    if rec.get("unordered") or len(seg.save_marks) != nsaves:
+        return (["SAny %d" % len(ops)] if ops else []), left
+    bounds = list(seg.save_marks) + [len(ops)]
+    terms = []
+    if bounds[0] > 0:
+        terms.append("SAny %d" % bounds[0])
+    probe_expected = not (rec.get("tmpdir") or "").endswith("no-such-dir")
+    for k in range(nsaves):
+        v = versions[k + 1]
+        part = ops[bounds[k]:bounds[k + 1]]
+        kind = v.get("kind") or ""
+        fault = v.get("fault") or ""
+        if kind not in ("writefile", "update"):
+            if part:
+                terms.append("SAny %d" % len(part))
+            continue
+        if fault == "nofile":
+            # no temporary file, no probe file: the model predicts no operation at all
+            # (anything recorded in this part is then a mismatch)
+            terms.append("SSave %s 0 0 0 1 2" % gb(kind == "update"))
+            continue
+        i = 0
+        if probe_expected:
+            # renameio.TempDir: two O_EXCL files, closed at once
+            if len(part) >= 4 and [o[0] for o in part[:4]] == ["O", "C", "O", "C"]:
+                terms.append("SProbe %d %d %d %d %s" % (part[0][1], P(part[0][2]), part[2][1], P(part[2][2]),
+                                                        gb(fault == "rename" or rec.get("inject") == "rename")))
+                i = 6
+            else:
+                terms.append("SProbe 0 0 0 0 false")        # expected and not found: mismatch in Coq
+        main = part[i:]
+        fd, tmp = 0, 0
+        if main and main[0][0] == "O":
+            fd, tmp = main[0][1], P(main[0][2])
+        if fault == "limit" or fault == "source" or (v.get("expect_err") and fault not in FAULT_CODE):
+            ending = 2
+        elif v.get("skipped"):
+            ending = 1
+        else:
+            ending = 0
+        res = 2 if v.get("err") else (1 if v.get("skipped") else 0)
+        terms.append("SSave %s %d %d %d %d %d" % (gb(kind == "update"), fd, tmp, ending, FAULT_CODE.get(fault, 0), res))
+        if kind == "update" and fault in ("fsync", "rename") and tmp:
+            # finalizeUpdate returns the error of CloseReplace without a Cleanup
+            left.append(tmp)
+    return terms, left
+
+
+def build_case(seg, rec, root, want_dir=None):
     dst = rec["dst"]
     versions = rec["versions"]
     initial = rec.get("initial") or {}
@@ -449,21 +616,20 @@ def build_case(seg, rec, root):
     used.add(dst)
     boot_paths = sorted(p for p in initial if p in used and initial[p].get("exists"))
     all_small = all(v["len"] <= SMALL and v.get("want_len", 0) <= SMALL for v in versions) and all(initial[p]["len"] <= SMALL for p in boot_paths)
-    writes_visible = all(op[-1] is not None for op in ops if op[0] in ("W", "PW"))
+    writes_visible = all((op[3] if op[0] == "W" else op[4]) is not None for op in ops if op[0] in ("W", "PW"))
     bm = all_small and writes_visible
-    seq = [0]
 
-    def chunk(n):
-        seq[0] += 1
-        return [(seq[0] << 40) | n] if n else []
+    def wdata(n, data, vis):
+        return gdata(list(data)) if bm else gdu(elem(n, vis))
 
-    def wdata(n, data):
-        return list(data) if bm else chunk(n)
+    def boot_elem(v):
+        # chunk mode: a file present at the start is one element (length only)
+        return [v["len"]] if v["len"] else []
 
     ents = []
     for p in boot_paths:
         v = initial[p]
-        d = list(bytes.fromhex(v.get("hex", ""))) if bm else ([v["len"]] if v["len"] else [])
+        d = list(bytes.fromhex(v.get("hex", ""))) if bm else boot_elem(v)
         ents.append("(%d, %s)" % (P(p), gdata(d)))
     segs_out, terms = [], []
 
@@ -478,25 +644,23 @@ def build_case(seg, rec, root):
         t = op[0]
         if t == "W" and not bm:
             j = k
-            while j < len(ops) and ops[j][0] == "W" and ops[j][1] == op[1] and j - k < 2000:
+            while j < len(ops) and ops[j][0] == "W" and ops[j][1] == op[1] and j - k < 1000:
                 j += 1
             if j - k >= 4:
                 flush()
-                first = seq[0] + 1
-                seq[0] += j - k
-                segs_out.append("WS %d %d %s" % (op[1], first, gdata([o[2] for o in ops[k:j]])))
+                segs_out.append("WH %d [%s]%%uint63" % (op[1], ";".join(str((elem(o[2], o[4]) or [0])[0]) for o in ops[k:j])))
                 k = j
                 continue
         k += 1
         if t == "O":
             terms.append("O %d %d %s" % (op[1], P(op[2]), " ".join(gb(x) for x in op[3:8])))
         elif t == "W":
-            terms.append("W %d %s" % (op[1], gdata(wdata(op[2], op[3]))))
+            terms.append("W %d %s" % (op[1], wdata(op[2], op[3], op[4])))
         elif t == "PW":
             # byte mode: real offset; chunk mode has no byte offsets: a positional
             # write is kept only to be judged by the checker (it never occurs
             # in the rename-based writers)
-            terms.append("PW %d %d %s" % (op[1], op[2], gdata(wdata(op[3], op[4]))))
+            terms.append("PW %d %d %s" % (op[1], op[2], wdata(op[3], op[4], op[5])))
         elif t in ("S", "C"):
             terms.append("%s %d" % (t, op[1]))
         elif t == "R":
@@ -525,9 +689,36 @@ def build_case(seg, rec, root):
     vers = []
     if bm:
         vers = [gopt(gdata(list(bytes.fromhex(vhex(v))))) if v["exists"] or v.get("has_want") else "None" for v in pub]
+    else:
+        # chunk mode: the reference contents cut at the boundaries of the
+        # recorded write calls; each element carries the CRC of what strace
+        # showed of the call, so a file of the right length with other bytes
+        # in it is a mismatch, and so is a cut one
+        pubs = published_chunks(ops, dst)
+        v0 = versions[0]
+        vers = [gopt(gdata(boot_elem(v0))) if v0["exists"] else "None"]
+        if not rec.get("unordered"):
+            for k, v in enumerate(pub[1:]):
+                ref = ref_content(v, want_dir)
+                if ref is None:
+                    vers.append("(Some [0])")       # no reference content: reported as a mismatch
+                    continue
+                chunks = pubs[k] if k < len(pubs) else [(len(ref), None)]
+                vers.append(gopt(gdu(slice_elems(ref, chunks))))
+        else:
+            for v in pub[1:]:
+                ref = ref_content(v, want_dir)
+                if ref is None:
+                    continue
+                for chunks in pubs:
+                    if sum(n for n, _ in chunks) == len(ref):
+                        vers.append(gopt(gdu(slice_elems(ref, chunks))))
     keep = [str(P(p)) for p in rec.get("keep") or []]
-    coq = "(CTrace 1 %s %s %s %s %s %s %s)%%N" % (
-        glist(keep), glist(ents), trace_term, gb(bm), gb(not rec.get("unordered")), glist(lens), glist(vers))
+    saves, left = saves_term(seg, rec, P, dst)
+    keep += [str(n) for n in left]
+    coq = "(CTrace 1 %s %s %s %s %s %s %s %s)%%N" % (
+        glist(keep), glist(ents), trace_term, gb(bm), gb(not rec.get("unordered")), glist(lens), glist(vers),
+        glist(saves))
     return coq, bm, pid
 
 
@@ -577,8 +768,8 @@ def selftest():
         os.unlink(name)
     want = [("O", 6, "/r/d/.tmpA", True, True, False, True, False),
             ("O", 7, "/r/d/.tmpB", True, True, False, True, False),
-            ("W", 6, 5, b"aa\naa"),
-            ("W", 7, 3, b"bbb"),
+            ("W", 6, 5, b"aa\naa", b"aa\naa"),
+            ("W", 7, 3, b"bbb", b"bbb"),
             ("S", 6), ("C", 6),
             ("R", "/r/d/.tmpA", "/r/d/dst"),
             ("C", 7), ("U", "/r/d/.tmpB")]
@@ -617,7 +808,10 @@ def main():
     for k in ("trace", "meta", "root", "out", "pkg", "seed", "tier"):
         ap.add_argument("--" + k, required=True)
     ap.add_argument("--only", default="")
+    ap.add_argument("--inject", default="")
+    ap.add_argument("--want", default="")
     a = ap.parse_args()
+    tag = a.pkg + ("_" + a.inject if a.inject else "")
     segs = parse(a.trace, a.root)
     recs = [json.loads(l) for l in open(a.meta)] if os.path.exists(a.meta) else []
     only = int(a.only) if a.only.strip() else -1
@@ -627,13 +821,15 @@ def main():
     for rec in recs:
         seg = segs.get(rec["seg"])
         # ids unique across the three packages (replay files are named by id)
-        cid = {"dhcpd": 1000, "filtering": 2000, "home": 3000, "rulelist": 4000}.get(a.pkg, 0) + rec["seg"]
+        # (the runs with an injected system-call failure: +700 fsync, +800 rename)
+        cid = ({"dhcpd": 1000, "filtering": 2000, "home": 3000, "rulelist": 4000}.get(a.pkg, 0)
+               + {"": 0, "fsync": 700, "rename": 800}.get(a.inject, 900) + rec["seg"])
         if only >= 0 and cid != only:
             continue
         if seg is None:
             seg = Seg(cid)
             seg.unsupported.append("no begin marker found in the trace")
-        coq, bm, pid = build_case(seg, rec, a.root)
+        coq, bm, pid = build_case(seg, rec, a.root, a.want)
         msgs = []
         if rec.get("reader_bad"):
             msgs.append(("reader", rec["reader_bad"]))
@@ -662,7 +858,8 @@ def main():
             cls.append("unlink-in-trace")
         nsaves = len(rec["versions"]) - 1
         rel = {p: n for p, n in pid.items()}
-        desc = {"pkg": a.pkg, "case": rec["name"], "dst": os.path.relpath(rec["dst"], a.root), "saves": nsaves,
+        desc = {"pkg": a.pkg, "case": rec["name"], "trace_file": os.path.basename(a.trace), "injected": a.inject,
+                "save_labels": [v.get("label") for v in rec["versions"][1:]], "dst": os.path.relpath(rec["dst"], a.root), "saves": nsaves,
                 "sizes": [v["len"] for v in rec["versions"]], "ops": len(seg.ops), "mode": "bytes" if bm else "chunks",
                 "tmpdir": os.path.relpath(rec.get("tmpdir") or a.root, a.root),
                 "paths": {os.path.relpath(p, a.root): n for p, n in rel.items()},
@@ -694,16 +891,16 @@ def main():
         stats["saves"] += nsaves
     sp = stats.pop("syscalls_per_trace")
     sz = stats.pop("sizes")
-    extra = {a.pkg: dict(stats, syscalls_per_trace_min=min(sp or [0]), syscalls_per_trace_max=max(sp or [0]),
+    extra = {tag: dict(stats, syscalls_per_trace_min=min(sp or [0]), syscalls_per_trace_max=max(sp or [0]),
                          syscalls_total=sum(sp), size_min=min(sz or [0]), size_max=max(sz or [0]))}
-    name = "C14_" + a.pkg
+    name = "C14_" + tag
     with open(os.path.join(a.out, name + ".cases.jsonl"), "w") as f:
         for c in cases:
             f.write(json.dumps(c) + "\n")
     with open(os.path.join(a.out, name + ".dist.json"), "w") as f:
         json.dump({"evaluations": len(cases), "distinct_nontrivial": len(distinct), "monitor_failures": fails,
                    "classes": classes, "samples": samples, "seed": int(a.seed), "tier": a.tier, "extra": extra}, f, indent=1)
-    print("C14 %s: %d traces, %d monitor failures" % (a.pkg, len(cases), fails))
+    print("C14 %s: %d traces, %d monitor failures" % (tag, len(cases), fails))
 
 
 if __name__ == "__main__":
